@@ -396,7 +396,7 @@ func e2eDelayComponent(r *hx.Run) {
 		}
 		return -1
 	}
-	scen := []string{"chunks", "errors", "quiet", "trickle"}
+	scen := []string{"chunks", "errors", "quiet", "trickle", "errtrickle"}
 	if r.Tier == "thorough" {
 		scen = append(scen, scen...)
 		scen = append(scen, "chunks", "chunks", "trickle")
@@ -421,9 +421,11 @@ func e2eDelayComponent(r *hx.Run) {
 			}
 			pf := filepath.Join(dir, fmt.Sprintf("ports-%d.txt", si))
 			os.WriteFile(pf, []byte(strings.Join(ps, "\n")+"\n"), 0o644)
-			args = []string{"tcp", "syn", "--json", "--exit-delay", "300ms", "--ports-file", pf, "-a", writeArpCache(dir, []uint32{target}), v4Text(target)}
+			// (each run takes longer than the delay itself: 200 probes at 600 per second)
+			delayMs = 200
+			args = []string{"tcp", "syn", "--json", "--exit-delay", "200ms", "--rate", "600/s", "--ports-file", pf, "-a", writeArpCache(dir, []uint32{target}), v4Text(target)}
 			chunkOf = func(port int) int { return (port - p0) / 200 }
-			ansChunk = si % 2 // the first or the second run
+			ansChunk = (si + 1) % 2 // the second or the first run
 		case "errors":
 			// a scan that also reports errors (hosts without a MAC, no gateway entry in the cache): still the full delay
 			delayMs = 450
@@ -439,6 +441,10 @@ func e2eDelayComponent(r *hx.Run) {
 			// a long delay, a network that is silent for more than a second, then the answer
 			delayMs, injPct = 2500, 68
 			args = []string{"tcp", "syn", "--json", "--exit-delay", "2500ms", "-p", fmt.Sprint(p0), "-a", writeArpCache(dir, []uint32{target}), v4Text(target)}
+		case "errtrickle":
+			// frames that pass the filter but cannot be decoded keep trickling in (an error record each): the run still ends
+			// when its delay is over
+			args = []string{"tcp", "syn", "--json", "--exit-delay", "300ms", "-p", fmt.Sprint(p0), "-a", writeArpCache(dir, []uint32{target}), v4Text(target)}
 		case "trickle":
 			// answers keep trickling in (one every 90 ms for 4 s): the run still ends when ITS delay is over
 			args = []string{"tcp", "syn", "--json", "--exit-delay", "300ms", "-p", fmt.Sprint(p0), "-a", writeArpCache(dir, []uint32{target}), v4Text(target)}
@@ -500,14 +506,23 @@ func e2eDelayComponent(r *hx.Run) {
 					injected = time.Now().UnixNano() - tLast
 				}
 			}
-			if sc == "trickle" {
+			if sc == "trickle" || sc == "errtrickle" {
+				fr := replyTo("pkt-tcp", probe)
+				if sc == "errtrickle" {
+					// a SYN+ACK from the right address and port whose TCP header says "data offset 4 words": accepted by the
+					// filter (which looks at tcp[13]), refused by the decoder
+					fr = append([]byte{}, fr...)
+					fr[46] = 0x40
+					binary.BigEndian.PutUint16(fr[50:52], 0)
+					binary.BigEndian.PutUint16(fr[50:52], tcpChecksum(fr[26:30], fr[30:34], fr[34:54]))
+				}
 				go func() {
 					for k := 0; k < 44; k++ {
 						select {
 						case <-stopTrickle:
 							return
 						case <-time.After(90 * time.Millisecond):
-							lab.inject(replyTo("pkt-tcp", probe))
+							lab.inject(fr)
 						}
 					}
 				}()
